@@ -9,6 +9,7 @@ import (
 	"os"
 	"strconv"
 	"strings"
+	"sync"
 	"testing"
 
 	"go.opentelemetry.io/otel"
@@ -143,7 +144,86 @@ func c19ParseKVs(s string) []attribute.KeyValue {
 		i := strings.IndexByte(p, '=')
 		out = append(out, attribute.KeyValue{Key: attribute.Key(c19Unhex(p[:i])), Value: c19ParseVal(p[i+1:])})
 	}
-	return out
+	return c19Tab.slice(out)
+}
+
+// Shared argument table: every attribute slice handed to the API (NewWithAttributes, NewSchemaless,
+// WithAttributes) is a sub-slice WITH SPARE CAPACITY of this one table; after the calls of a line
+// the table is overwritten and re-used (scribble), then later calls are made, and only then are the
+// results of the line and its operand resources read (settle). An implementation that keeps the
+// caller's slice, or hands out internal storage, shows up as a changed late reading.
+type c19Arena struct {
+	tab  []attribute.KeyValue
+	used int
+}
+
+var c19Tab = &c19Arena{tab: make([]attribute.KeyValue, 1024)}
+
+var c19Junk = attribute.String("zz.scribbled", "junk")
+
+func (a *c19Arena) slice(kvs []attribute.KeyValue) []attribute.KeyValue {
+	n := len(kvs)
+	if a.used+n+3 > len(a.tab) {
+		// never reached within one line (lines are small); keep going on a fresh table
+		a.tab, a.used = make([]attribute.KeyValue, 1024+n), 0
+	}
+	s := a.tab[a.used : a.used+n : a.used+n+3]
+	copy(s, kvs)
+	a.used += n + 3
+	return s
+}
+
+func (a *c19Arena) scribble() {
+	for i := 0; i < a.used && i < len(a.tab); i++ {
+		a.tab[i] = c19Junk
+	}
+	a.used = 0
+}
+
+type c19Watch struct {
+	r     *Resource
+	early string
+}
+
+// settle: scribble over the argument table, mutate slices the API handed out, make later calls,
+// then re-read every watched resource. Returns "" or a description of what changed.
+func c19Settle(ws []*Resource) string {
+	early := make([]string, len(ws))
+	for i, r := range ws {
+		early[i] = c19Res(r)
+	}
+	c19Tab.scribble()
+	for _, r := range ws {
+		at := r.Attributes()
+		for i := range at {
+			at[i] = c19Junk
+		}
+		if r != nil {
+			it := r.Iter()
+			sl := it.ToSlice()
+			for i := range sl {
+				sl[i] = c19Junk
+			}
+		}
+	}
+	// later calls, on the same (re-used) table and on the watched resources
+	later := NewWithAttributes("http://later", c19Tab.slice([]attribute.KeyValue{c19Junk, attribute.Int("zz.later", 1)})...)
+	for _, r := range ws {
+		if m, _ := Merge(r, later); m != nil {
+			at := m.Attributes()
+			for i := range at {
+				at[i] = c19Junk
+			}
+		}
+		_, _ = Merge(later, r)
+	}
+	c19Tab.scribble()
+	for i, r := range ws {
+		if l := c19Res(r); l != early[i] {
+			return fmt.Sprintf("UNSTABLE:operand%d:%s->%s", i, early[i], l)
+		}
+	}
+	return ""
 }
 
 // resource token (input): nil | <kvs>@x<schema> -> NewWithAttributes(schema, kvs...)
@@ -187,6 +267,9 @@ func c19MkDet(tok string) Detector {
 	if tok == "nild" {
 		return nil
 	}
+	if strings.HasPrefix(tok, "sd:") {
+		return c19MkStringDet(tok)
+	}
 	i := strings.IndexByte(tok, ':')
 	d := c19Detector{res: c19MkRes(tok[i+1:])}
 	switch tok[:i] {
@@ -217,6 +300,10 @@ func (e c19Emitter) schemaless(gen, kvs string) {
 	} else {
 		r = NewSchemaless(c19ParseKVs(kvs)...)
 	}
+	if u := c19Settle([]*Resource{r}); u != "" {
+		e.out.Line("schemaless %s %s => %s", gen, kvs, u)
+		return
+	}
 	at := r.Attributes()
 	if r.Len() != len(at) {
 		at = append(at, attribute.String("BADLEN", ""))
@@ -225,7 +312,12 @@ func (e c19Emitter) schemaless(gen, kvs string) {
 }
 
 func (e c19Emitter) merge(gen, a, b string) {
-	r, err := Merge(c19MkRes(a), c19MkRes(b))
+	ra, rb := c19MkRes(a), c19MkRes(b)
+	r, err := Merge(ra, rb)
+	if u := c19Settle([]*Resource{ra, rb, r}); u != "" {
+		e.out.Line("merge %s %s %s => %s", gen, a, b, u)
+		return
+	}
 	e.out.Line("merge %s %s %s => %s %s", gen, a, b, c19Res(r), c19Err(err))
 }
 
@@ -235,6 +327,10 @@ func (e c19Emitter) merge3(gen, a, b, c string) {
 	l, e2 := Merge(ab, rc)
 	bc, e3 := Merge(rb, rc)
 	r, e4 := Merge(ra, bc)
+	if u := c19Settle([]*Resource{ra, rb, rc, ab, bc, l, r}); u != "" {
+		e.out.Line("merge3 %s %s %s %s => %s", gen, a, b, c, u)
+		return
+	}
 	e.out.Line("merge3 %s %s %s %s => %s %s %s %s %s %s", gen, a, b, c, c19Res(l), c19Err(e1), c19Err(e2), c19Res(r), c19Err(e3), c19Err(e4))
 }
 
@@ -247,13 +343,182 @@ func (e c19Emitter) env(gen, attrs, svc string) {
 	}
 	*e.handled = 0
 	r, err := fromEnv{}.Detect(context.Background())
-	e.out.Line("env %s x%s x%s => %s %s %d", gen, c19Hex(attrs), c19Hex(svc), c19Res(r), c19Err(err), *e.handled)
+	h := *e.handled
+	if u := c19Settle([]*Resource{r}); u != "" {
+		e.out.Line("env %s x%s x%s => %s", gen, c19Hex(attrs), c19Hex(svc), u)
+		return
+	}
+	e.out.Line("env %s x%s x%s => %s %s %d", gen, c19Hex(attrs), c19Hex(svc), c19Res(r), c19Err(err), h)
+}
+
+// envrt: a list of (key, value) pairs rendered as k1=%XX…,k2=… (every value byte percent-encoded) and parsed back
+func (e c19Emitter) envrt(gen string, keys, vals []string) {
+	parts := make([]string, len(keys))
+	shown := make([]string, len(keys))
+	for i := range keys {
+		var b strings.Builder
+		for j := 0; j < len(vals[i]); j++ {
+			fmt.Fprintf(&b, "%%%02X", vals[i][j])
+		}
+		parts[i] = keys[i] + "=" + b.String()
+		shown[i] = c19Hex(keys[i]) + "=" + c19Hex(vals[i])
+	}
+	s := strings.Join(parts, ",")
+	if os.Setenv(resourceAttrKey, s) != nil || os.Setenv(svcNameKey, "") != nil {
+		panic("setenv failed")
+	}
+	*e.handled = 0
+	r, err := fromEnv{}.Detect(context.Background())
+	h := *e.handled
+	ps := "-"
+	if len(shown) > 0 {
+		ps = strings.Join(shown, ";")
+	}
+	if u := c19Settle([]*Resource{r}); u != "" {
+		e.out.Line("envrt %s %s x%s => %s", gen, ps, c19Hex(s), u)
+		return
+	}
+	e.out.Line("envrt %s %s x%s => %s %s %d", gen, ps, c19Hex(s), c19Res(r), c19Err(err), h)
+}
+
+var c19RtKeys = []string{"k", "", "š", "a b", "\xff", "a.b", "service.name", " k", "k ", "k\u00a0", "\u2003a", "a,b", "a=b", "\tk",
+	"k\xc2", "\xa0k", "\xc2", "a\u00a0b", "%41", "k%", "\u0085", "x\u3000"}
+
+func c19GenRt(r *vRand) (string, []string, []string) {
+	n := r.Intn(5)
+	keys, vals := make([]string, n), make([]string, n)
+	gen := "ok"
+	for i := range keys {
+		if r.Intn(4) == 0 {
+			keys[i] = vPick(r, c19RtKeys)
+		} else {
+			keys[i] = vPick(r, c19RtKeys[:7])
+		}
+		vals[i] = vPick(r, []string{"", "v", " ", "a b", "%", ",=", "\xff\x00", "\u00a0", "%41"})
+		if r.Intn(3) == 0 {
+			vals[i] = vStr(r, 6)
+		}
+	}
+	return gen, keys, vals
+}
+
+// default: resource.Default() twice (the sync.Once is re-armed first), the environment changed in between
+func (e c19Emitter) deflt(gen, a1, s1, a2, s2 string) {
+	clean := func(x string) string { return strings.ReplaceAll(x, "\x00", "0") }
+	a1, s1, a2, s2 = clean(a1), clean(s1), clean(a2), clean(s2)
+	set := func(a, s string) {
+		if os.Setenv(resourceAttrKey, a) != nil || os.Setenv(svcNameKey, s) != nil {
+			panic("setenv failed")
+		}
+	}
+	set(a1, s1)
+	defaultResourceOnce = sync.Once{}
+	defaultResource = nil
+	sv, sve := defaultServiceNameDetector{}.Detect(context.Background())
+	ts, tse := telemetrySDK{}.Detect(context.Background())
+	*e.handled = 0
+	r1 := Default()
+	h1 := *e.handled
+	early := c19Res(r1)
+	set(a2, s2)
+	*e.handled = 0
+	r2 := Default()
+	h2 := *e.handled
+	same := 0
+	if r1 == r2 {
+		same = 1
+	}
+	u := c19Settle([]*Resource{r1, r2, sv, ts})
+	if l := c19Res(r1); u == "" && l != early {
+		u = "UNSTABLE:default:" + early + "->" + l
+	}
+	if u != "" {
+		e.out.Line("default %s x%s x%s x%s x%s => %s", gen, c19Hex(a1), c19Hex(s1), c19Hex(a2), c19Hex(s2), u)
+		return
+	}
+	e.out.Line("default %s x%s x%s x%s x%s %s %s => %s %d %s %d %d", gen, c19Hex(a1), c19Hex(s1), c19Hex(a2), c19Hex(s2),
+		c19DetTok(sv, sve), c19DetTok(ts, tse), early, h1, c19Res(r2), h2, same)
+}
+
+// what a detector returned, as a detector token: <ok|p|f|c|pc>:<resource|nil>
+func c19DetTok(r *Resource, err error) string {
+	cls := "ok"
+	if err != nil {
+		p, c := errors.Is(err, ErrPartialResource), errors.Is(err, ErrSchemaURLConflict)
+		switch {
+		case p && c:
+			cls = "pc"
+		case p:
+			cls = "p"
+		case c:
+			cls = "c"
+		default:
+			cls = "f"
+		}
+	}
+	if r == nil {
+		return cls + ":nil"
+	}
+	return cls + ":" + c19Res(r)
+}
+
+// the built-in options of config.go and, per option, the detectors it stands for according to its
+// documentation (name as in the Lean model's BDet, detector value), in order
+type c19BI struct {
+	name string
+	det  Detector
+}
+
+var c19Builtin = map[string]struct {
+	opt  func() Option
+	dets []c19BI
+}{
+	"Host":                      {WithHost, []c19BI{{"host", host{}}}},
+	"HostID":                    {WithHostID, []c19BI{{"hostID", hostIDDetector{}}}},
+	"TelemetrySDK":              {WithTelemetrySDK, []c19BI{{"telemetrySDK", telemetrySDK{}}}},
+	"OS":                        {WithOS, []c19BI{{"osType", osTypeDetector{}}, {"osDescription", osDescriptionDetector{}}}},
+	"OSType":                    {WithOSType, []c19BI{{"osType", osTypeDetector{}}}},
+	"OSDescription":             {WithOSDescription, []c19BI{{"osDescription", osDescriptionDetector{}}}},
+	"Process": {WithProcess, []c19BI{{"processPID", processPIDDetector{}}, {"processExecutableName", processExecutableNameDetector{}},
+		{"processExecutablePath", processExecutablePathDetector{}}, {"processCommandArgs", processCommandArgsDetector{}},
+		{"processOwner", processOwnerDetector{}}, {"processRuntimeName", processRuntimeNameDetector{}},
+		{"processRuntimeVersion", processRuntimeVersionDetector{}}, {"processRuntimeDescription", processRuntimeDescriptionDetector{}}}},
+	"ProcessPID":                {WithProcessPID, []c19BI{{"processPID", processPIDDetector{}}}},
+	"ProcessExecutableName":     {WithProcessExecutableName, []c19BI{{"processExecutableName", processExecutableNameDetector{}}}},
+	"ProcessExecutablePath":     {WithProcessExecutablePath, []c19BI{{"processExecutablePath", processExecutablePathDetector{}}}},
+	"ProcessCommandArgs":        {WithProcessCommandArgs, []c19BI{{"processCommandArgs", processCommandArgsDetector{}}}},
+	"ProcessOwner":              {WithProcessOwner, []c19BI{{"processOwner", processOwnerDetector{}}}},
+	"ProcessRuntimeName":        {WithProcessRuntimeName, []c19BI{{"processRuntimeName", processRuntimeNameDetector{}}}},
+	"ProcessRuntimeVersion":     {WithProcessRuntimeVersion, []c19BI{{"processRuntimeVersion", processRuntimeVersionDetector{}}}},
+	"ProcessRuntimeDescription": {WithProcessRuntimeDescription, []c19BI{{"processRuntimeDescription", processRuntimeDescriptionDetector{}}}},
+	"Container":                 {WithContainer, []c19BI{{"containerID", cgroupContainerIDDetector{}}}},
+	"ContainerID":               {WithContainerID, []c19BI{{"containerID", cgroupContainerIDDetector{}}}},
+}
+
+var c19BuiltinNames = []string{"Host", "HostID", "TelemetrySDK", "OS", "OSType", "OSDescription", "Process", "ProcessPID",
+	"ProcessExecutableName", "ProcessExecutablePath", "ProcessCommandArgs", "ProcessOwner", "ProcessRuntimeName",
+	"ProcessRuntimeVersion", "ProcessRuntimeDescription", "Container", "ContainerID"}
+
+// StringDetector token: sd:x<schema>:x<key>:<x<value>|err>
+func c19MkStringDet(tok string) Detector {
+	f := strings.Split(tok, ":")
+	val := f[3]
+	return StringDetector(c19Unhex(f[1][1:]), attribute.Key(c19Unhex(f[2][1:])), func() (string, error) {
+		if val == "err" {
+			return "", c19Fatal
+		}
+		return c19Unhex(val[1:]), nil
+	})
 }
 
 func (e c19Emitter) detect(gen, init string, dets []string) {
 	ds := make([]Detector, len(dets))
+	var ws []*Resource
 	for i, d := range dets {
 		ds[i] = c19MkDet(d)
+		if cd, ok := ds[i].(c19Detector); ok {
+			ws = append(ws, cd.res)
+		}
 	}
 	var r *Resource
 	var err error
@@ -261,6 +526,10 @@ func (e c19Emitter) detect(gen, init string, dets []string) {
 		r, err = Detect(context.Background(), ds...)
 	} else {
 		r, err = New(context.Background(), WithSchemaURL(init), WithDetectors(ds...))
+	}
+	if u := c19Settle(append(ws, r)); u != "" {
+		e.out.Line("detect %s x%s %s => %s", gen, c19Hex(init), strings.Join(dets, " "), u)
+		return
 	}
 	e.out.Line("detect %s x%s %s => %s %s", gen, c19Hex(init), strings.Join(dets, " "), c19Res(r), c19Err(err))
 }
@@ -278,6 +547,67 @@ func (e c19Emitter) requal(gen, a, b string) {
 		f = 1
 	}
 	e.out.Line("requal %s %s %s => %d %d", gen, a, b, eq, f)
+}
+
+// racc: every accessor of a resource, nil receivers included; tokens: nil | empty | <kvs>@x<schema>
+func (e c19Emitter) racc(gen, a, b string) {
+	mk := func(tok string) *Resource {
+		if tok == "empty" {
+			return Empty()
+		}
+		return c19MkRes(tok)
+	}
+	ra, rb := mk(a), mk(b)
+	it := ra.Iter()
+	n := 0
+	for it.Next() {
+		n++
+	}
+	if ra.Set().Len() != ra.Len() {
+		n = -1
+	}
+	if u := c19Settle([]*Resource{ra, rb}); u != "" {
+		e.out.Line("racc %s %s %s => %s", gen, a, b, u)
+		return
+	}
+	eq, eqr := 0, 0
+	if ra.Equal(rb) {
+		eq = 1
+	}
+	if rb.Equal(ra) {
+		eqr = 1
+	}
+	e.out.Line("racc %s %s %s => %s x%s %d %d x%s x%s %d %d", gen, a, b, c19KVs(ra.Attributes()), c19Hex(ra.SchemaURL()), ra.Len(), n,
+		c19Hex(ra.String()), c19Hex(ra.Encoded(attribute.DefaultEncoder())), eq, eqr)
+}
+
+// a resource token whose values are STRING / BOOL / INT64 / INVALID only
+func c19GenPlainRes(r *vRand) string {
+	switch r.Intn(6) {
+	case 0:
+		return "nil"
+	case 1:
+		return "empty"
+	case 2:
+		return "-@x" + c19Hex(vPick(r, c19Schemas))
+	}
+	n := r.Intn(5)
+	kvs := make([]attribute.KeyValue, 0, n)
+	for i := 0; i < n; i++ {
+		var v attribute.Value
+		switch r.Intn(5) {
+		case 0:
+			v = attribute.Value{}
+		case 1:
+			v = attribute.BoolValue(r.Bool())
+		case 2:
+			v = attribute.Int64Value(int64(r.Intn(5)) - 2)
+		default:
+			v = attribute.StringValue(vPick(r, []string{"", "v", "a=b,c\\d", "x y", "š"}))
+		}
+		kvs = append(kvs, attribute.KeyValue{Key: attribute.Key(vPick(r, c19Keys)), Value: v})
+	}
+	return c19KVs(kvs) + "@x" + c19Hex(vPick(r, c19Schemas))
 }
 
 // detectors with identity for resource.New: the same kind+id on a line is the SAME detector value
@@ -317,13 +647,18 @@ func (e c19Emitter) newRes(gen, attrs, svc string, optToks []string) {
 	}
 	tab := &c19Table{m: map[int]c19Detector{}}
 	ptrs := map[string]*c19PtrDet{}
+	var ws []*Resource
 	mk := func(tok string) Detector {
 		if tok == "nild" {
 			return nil
 		}
 		i := strings.IndexByte(tok, '/')
 		kid := tok[:i]
+		if strings.HasPrefix(tok[i+1:], "sd:") {
+			return c19MkStringDet(tok[i+1:])
+		}
 		base := c19MkDet(tok[i+1:]).(c19Detector)
+		ws = append(ws, base.res)
 		switch kid[0] {
 		case 'P':
 			if p, ok := ptrs[kid]; ok {
@@ -357,6 +692,17 @@ func (e c19Emitter) newRes(gen, attrs, svc string, optToks []string) {
 			// what this built-in detector returns is an input of the line
 			r, _ := telemetrySDK{}.Detect(context.Background())
 			shown[i] = "tsdk:" + c19Res(r)
+		case strings.HasPrefix(tok, "bi:"):
+			name := strings.Split(tok, ":")[1]
+			b := c19Builtin[name]
+			opts = append(opts, b.opt())
+			// what each built-in detector returns in this process is an input of the line
+			parts := make([]string, len(b.dets))
+			for j, d := range b.dets {
+				r, err := d.det.Detect(context.Background())
+				parts[j] = d.name + "/" + c19DetTok(r, err)
+			}
+			shown[i] = "bi:" + name + ":" + strings.Join(parts, ";")
 		case strings.HasPrefix(tok, "dets:"):
 			var ds []Detector
 			if body := tok[5:]; body != "" {
@@ -374,6 +720,10 @@ func (e c19Emitter) newRes(gen, attrs, svc string, optToks []string) {
 	sep := ""
 	if len(shown) > 0 {
 		sep = " "
+	}
+	if u := c19Settle(append(ws, r)); u != "" {
+		e.out.Line("new %s x%s x%s%s%s => %s", gen, c19Hex(attrs), c19Hex(svc), sep, strings.Join(shown, " "), u)
+		return
 	}
 	e.out.Line("new %s x%s x%s%s%s => %s %s", gen, c19Hex(attrs), c19Hex(svc), sep, strings.Join(shown, " "), c19Res(r), c19Err(err))
 }
@@ -433,6 +783,12 @@ func c19GenNew(r *vRand) (string, string, string, []string) {
 				opts = append(opts, "tsdk:-@x")
 			case 10:
 				opts = append(opts, "dets:")
+			case 11, 12:
+				if r.Bool() {
+					opts = append(opts, "bi:"+vPick(r, []string{"OS", "Process", "Process", "Container"}))
+				} else {
+					opts = append(opts, "bi:"+vPick(r, c19BuiltinNames))
+				}
 			default:
 				k := 1 + r.Intn(3)
 				ds := make([]string, k)
@@ -537,9 +893,15 @@ func c19GenSvc(r *vRand) string {
 }
 
 func c19GenDet(r *vRand) string {
-	switch r.Intn(12) {
+	switch r.Intn(13) {
 	case 0:
 		return "nild"
+	case 12:
+		val := "err"
+		if r.Intn(4) > 0 {
+			val = "x" + c19Hex(vPick(r, []string{"", "v", "sd value"}))
+		}
+		return "sd:x" + c19Hex(vPick(r, c19Schemas)) + ":x" + c19Hex(vPick(r, c19Keys)) + ":" + val
 	case 1, 2:
 		return "p:" + c19GenRes(r)
 	case 3, 4:
@@ -554,11 +916,21 @@ func c19GenDet(r *vRand) string {
 func TestVerifC19Res(t *testing.T) {
 	out := vOpen(t)
 	defer out.Close()
+	// a panic of the code under test is an observation: it becomes an (unparsable) trace line, so the
+	// run cannot pass for a truncated trace
+	defer func() {
+		if p := recover(); p != nil {
+			out.Line("panic harness => %s", strings.ReplaceAll(fmt.Sprint(p), " ", "_"))
+			t.Errorf("panic: %v", p)
+		}
+	}()
 	handled := 0
 	otel.SetErrorHandler(otel.ErrorHandlerFunc(func(error) { handled++ }))
 	// registers the restoration of both variables (and forbids t.Parallel)
 	t.Setenv(resourceAttrKey, "")
 	t.Setenv(svcNameKey, "")
+	t.Setenv("OTEL_GO_X_RESOURCE", "")
+	defer func() { defaultResourceOnce = sync.Once{}; defaultResource = nil }()
 	e := c19Emitter{out, &handled}
 	if rp := vReplayLines(); rp != nil {
 		for _, f := range rp {
@@ -575,8 +947,28 @@ func TestVerifC19Res(t *testing.T) {
 				e.detect(f[1], c19Unhex(f[2][1:]), f[3:])
 			case "requal":
 				e.requal(f[1], f[2], f[3])
+			case "racc":
+				e.racc(f[1], f[2], f[3])
 			case "new":
-				e.newRes(f[1], c19Unhex(f[2][1:]), c19Unhex(f[3][1:]), f[4:])
+				toks := append([]string{}, f[4:]...)
+				for i, t := range toks {
+					if strings.HasPrefix(t, "bi:") {
+						toks[i] = "bi:" + strings.Split(t, ":")[1]
+					}
+				}
+				e.newRes(f[1], c19Unhex(f[2][1:]), c19Unhex(f[3][1:]), toks)
+			case "envrt":
+				var ks, vs []string
+				if f[2] != "-" {
+					for _, p := range strings.Split(f[2], ";") {
+						i := strings.IndexByte(p, '=')
+						ks = append(ks, c19Unhex(p[:i]))
+						vs = append(vs, c19Unhex(p[i+1:]))
+					}
+				}
+				e.envrt(f[1], ks, vs)
+			case "default":
+				e.deflt(f[1], c19Unhex(f[2][1:]), c19Unhex(f[3][1:]), c19Unhex(f[4][1:]), c19Unhex(f[5][1:]))
 			}
 		}
 		return
@@ -599,7 +991,30 @@ func TestVerifC19Res(t *testing.T) {
 		rec(nil, 0)
 	}
 	for i := 0; i < n; i++ {
-		switch r.Intn(20) {
+		switch r.Intn(23) {
+		case 22:
+			a, b := c19GenPlainRes(r), c19GenPlainRes(r)
+			gen := "rnd"
+			if r.Intn(3) == 0 {
+				b, gen = vPick(r, []string{"nil", "empty", "-@x", "-@x687474703a2f2f732f31", "6b=n@x"}), "vs-empty"
+			}
+			e.racc(gen, a, b)
+		case 21:
+			gen, ks, vs := c19GenRt(r)
+			e.envrt(gen, ks, vs)
+		case 20:
+			gen := "rnd"
+			a2, s2 := c19GenEnv(r), c19GenSvc(r)
+			if r.Intn(3) == 0 {
+				a2, s2, gen = "", "", "cleared"
+			}
+			a1 := c19GenEnv(r)
+			if r.Intn(3) == 0 {
+				// the environment tries to override what the other two default detectors provide
+				a1 = vPick(r, []string{"telemetry.sdk.name=custom", "telemetry.sdk.language=rust,service.name=fromattrs", "service.name=fromattrs"}) + "," + a1
+				gen += "-override"
+			}
+			e.deflt(gen, a1, c19GenSvc(r), a2, s2)
 		case 16, 17, 18, 19:
 			gen, attrs, svc, opts := c19GenNew(r)
 			e.newRes(gen, attrs, svc, opts)
